@@ -28,6 +28,7 @@ import (
 	"math/rand"
 	"os"
 	"os/exec"
+	"regexp"
 	"sort"
 	"strings"
 	"time"
@@ -35,6 +36,7 @@ import (
 	zed "github.com/brimdata/super"
 	sortop "github.com/brimdata/super/runtime/sam/op/sort"
 	"github.com/brimdata/super/order"
+	"github.com/brimdata/super/pkg/field"
 	"github.com/brimdata/super/runtime/sam/expr/function"
 	"github.com/brimdata/super/zbuf"
 	"github.com/brimdata/super/zson"
@@ -125,28 +127,53 @@ func run(c *core.Ctx) error {
 	// recorded / predicted value; the conformance step must then reject (exit 2 or DRIFT).
 	phases := os.Getenv("VERIF_C06_PHASES")
 	on := func(p string) bool { return phases == "" || strings.Contains(phases, p) }
+	// All TLC runs are independent of each other and of the Go-side replays, so they
+	// are started together (the JVM start and the three model-checking runs overlap).
 	t0 := time.Now()
-	rel := recordRelation(u)
+	var rel *orderRel
+	var orderCh, sortCh, sortMutCh, mergeCh, mergeMutCh chan tlcOut
+	quick := c.Quick()
+	tier := map[bool]string{true: "quick", false: "thorough"}[quick]
 	if on("order") {
 		var err error
-		if rel, err = orderPhase(c, u); err != nil {
+		if rel, err = prepareOrder(c, u); err != nil {
 			return err
 		}
-		c.Logf("order phase done in %.1fs", time.Since(t0).Seconds())
+		orderCh = async(c, core.TLCRun{Module: "Order", Cfg: "Order." + tier + ".cfg", Files: rel.dataFiles(), Workers: 8, Coverage: true, Timeout: 18 * time.Minute})
+	} else {
+		rel = recordRelation(u)
 	}
+	var sortInputs []byte
 	if on("sort") {
-		t0 = time.Now()
-		if err := sortPhase(c, u, rel); err != nil {
-			return err
+		nSampled, maxN, maxB := 150, 12, 6
+		if !quick {
+			nSampled, maxN, maxB = 1500, 16, 8
 		}
-		c.Logf("sort phase done in %.1fs", time.Since(t0).Seconds())
+		sortInputs, _ = json.Marshal(sampledInputs(rand.New(rand.NewSource(c.Seed+66)), nSampled, maxN, maxB, 3))
+		sortCh = async(c, core.TLCRun{Module: "SortSpill", Cfg: "SortSpill." + tier + ".cfg", Files: map[string][]byte{"ss_inputs.json": sortInputs}, Workers: 6, Coverage: true, Timeout: 18 * time.Minute})
+		sortMutCh = async(c, core.TLCRun{Module: "SortSpill", Cfg: "SortSpill.mut.cfg", Files: map[string][]byte{"ss_inputs.json": []byte("[]")}, Workers: 2, Timeout: 5 * time.Minute})
 	}
 	if on("merge") {
-		t0 = time.Now()
-		if err := mergePhase(c, u); err != nil {
+		mergeCh = async(c, core.TLCRun{Module: "MergeOp", Cfg: "MergeOp." + tier + ".cfg", Workers: 6, Coverage: true, Timeout: 18 * time.Minute})
+		mergeMutCh = async(c, core.TLCRun{Module: "MergeOp", Cfg: "MergeOp.mut.cfg", Workers: 2, Timeout: 5 * time.Minute})
+	}
+	if on("order") {
+		if err := orderPhase(c, u, rel, <-orderCh); err != nil {
 			return err
 		}
-		c.Logf("merge phase done in %.1fs", time.Since(t0).Seconds())
+		c.Logf("order phase done at %.1fs", time.Since(t0).Seconds())
+	}
+	if on("sort") {
+		if err := sortPhase(c, u, rel, <-sortCh, <-sortMutCh); err != nil {
+			return err
+		}
+		c.Logf("sort phase done at %.1fs", time.Since(t0).Seconds())
+	}
+	if on("merge") {
+		if err := mergePhase(c, u, <-mergeCh, <-mergeMutCh); err != nil {
+			return err
+		}
+		c.Logf("merge phase done at %.1fs", time.Since(t0).Seconds())
 	}
 	if phases != "" {
 		c.Inconclusive("partial run (VERIF_C06_PHASES=%s)", phases)
@@ -177,7 +204,55 @@ type bulkWitness struct {
 	What   string     `json:"what"`
 }
 
-func orderPhase(c *core.Ctx, u *universe) (*orderRel, error) {
+type tlcOut struct {
+	res *core.TLCResult
+	err error
+}
+
+func async(c *core.Ctx, r core.TLCRun) chan tlcOut {
+	ch := make(chan tlcOut, 1)
+	go func() {
+		res, err := c.RunTLC(r)
+		ch <- tlcOut{res, err}
+	}()
+	return ch
+}
+
+var zeroCovRE = regexp.MustCompile(`(?m)^<(\w+) line \d+, col \d+ to line \d+, col \d+ of module \w+>: 0:0$`)
+
+// zeroCov lists the actions with zero coverage in TLC's FINAL coverage report
+// (long runs also print interim reports, in which late actions are still 0).
+func zeroCov(res *core.TLCResult) []string {
+	out := res.Out
+	if i := strings.LastIndex(out, "The coverage statistics at"); i >= 0 {
+		out = out[i:]
+	}
+	var names []string
+	for _, m := range zeroCovRE.FindAllStringSubmatch(out, -1) {
+		names = append(names, m[1])
+	}
+	return names
+}
+
+// mustHold is core.MustHold for an already finished run.
+func mustHold(c *core.Ctx, module string, o tlcOut) *core.TLCResult {
+	if o.err != nil {
+		c.Inconclusive("%v", o.err)
+		return nil
+	}
+	if o.res.Status != "ok" {
+		tail := o.res.Out
+		if len(tail) > 4000 {
+			tail = tail[len(tail)-4000:]
+		}
+		c.Inconclusive("TLC reports %s %s on %s (spec-level counterexample; not a verdict on the code)\n%s", o.res.Status, o.res.Violated, module, tail)
+		return nil
+	}
+	return o.res
+}
+
+// prepareOrder records the relation from the real code.
+func prepareOrder(c *core.Ctx, u *universe) (*orderRel, error) {
 	rel := recordRelation(u)
 	if err := rel.recordCompareFn(c); err != nil {
 		return nil, err
@@ -205,26 +280,28 @@ func orderPhase(c *core.Ctx, u *universe) (*orderRel, error) {
 	}
 	c.Set("universe_size", n)
 	c.Set("bulk_samples", len(rel.samples))
-	cfg := "Order.quick.cfg"
-	if !c.Quick() {
-		cfg = "Order.thorough.cfg"
+	return rel, nil
+}
+
+// orderPhase reads TLC's verdict on the recorded relation.
+func orderPhase(c *core.Ctx, u *universe, rel *orderRel, o tlcOut) error {
+	if o.err != nil {
+		return o.err
 	}
-	res, err := c.RunTLC(core.TLCRun{Module: "Order", Cfg: cfg, Files: rel.dataFiles(), Workers: 16, Coverage: true, Timeout: 15 * time.Minute})
-	if err != nil {
-		return nil, err
-	}
-	for _, a := range res.ZeroCov {
+	res := o.res
+	n := len(u.vals)
+	for _, a := range zeroCov(res) {
 		if a == "PickA" || a == "PickS" || a == "Scan" {
 			c.Inconclusive("Order.tla: action %s was never taken (vacuous run)", a)
 		}
 	}
 	bad, err := parseBad(res.Prints)
 	if err != nil {
-		return nil, err
+		return err
 	}
 	if res.Status != "ok" && res.Status != "invariant" {
 		c.Inconclusive("TLC reports %s %s on Order.tla", res.Status, res.Violated)
-		return rel, nil
+		return nil
 	}
 	c.Logf("Order.tla: %s, %d distinct states, %d broken axiom instances printed", res.Status, res.Distinct, len(bad))
 	newCount := 0
@@ -237,7 +314,7 @@ func orderPhase(c *core.Ctx, u *universe) (*orderRel, error) {
 			continue
 		}
 		if b.A < 1 || b.A > n || b.B < 1 || b.B > n || b.C < 0 || b.C > n {
-			return nil, fmt.Errorf("TLC printed an out-of-range token: %+v", b)
+			return fmt.Errorf("TLC printed an out-of-range token: %+v", b)
 		}
 		va, vb := u.vals[b.A-1], u.vals[b.B-1]
 		cmp := realCmp(b.Cfg)
@@ -307,7 +384,7 @@ func orderPhase(c *core.Ctx, u *universe) (*orderRel, error) {
 		s := rel.samples[3]
 		c.Sample(map[string]any{"kind": "bulk", "cfg": s.Cfg, "cfg2": s.Cfg2, "keys": tokensZSON(u, s.Keys), "keys2": tokensZSON(u, s.Keys2), "real_SortStable_output_positions": s.Out})
 	}
-	return rel, nil
+	return nil
 }
 
 func tokensZSON(u *universe, toks []int) []string {
@@ -355,6 +432,15 @@ func confirmPair(u *universe, axiom, cfg string, va, vb *uval) bool {
 		return false
 	case "desc":
 		return o == order.Desc && real != sign(realCmp(cfgOf(false, nm))(vb.val, va.val))
+	case "lake":
+		if nm {
+			ra := rec(u.zctx, []string{"k"}, []zed.Value{va.val})
+			rb := rec(u.zctx, []string{"k"}, []zed.Value{vb.val})
+			lk := zbuf.NewComparatorNullsMax(u.zctx, order.SortKeys{order.NewSortKey(o, field.Path{"k"})})
+			l, lr := sign(lk.Compare(ra, rb)), sign(lk.Compare(rb, ra))
+			return (real != 0 && l != real) || l != -lr
+		}
+		return false
 	case "fn":
 		v := function.NewCompare(u.zctx).Call(nil, []zed.Value{va.val, vb.val, zed.NewBool(nm)})
 		return v.Type() != zed.TypeInt64 || v.IsNull() || sign(int(v.Int())) != real
@@ -376,6 +462,8 @@ func describeAxiom(axiom string, w tripleWitness) string {
 		return fmt.Sprintf("nulls placement broken under %s: compare(%s, %s) = %d", w.Cfg, w.A, w.B, w.AB)
 	case "desc":
 		return fmt.Sprintf("descending comparison is not the reverse of ascending: under %s compare(%s, %s) = %d", w.Cfg, w.A, w.B, w.AB)
+	case "lake":
+		return fmt.Sprintf("the lake comparator (zbuf.NewComparatorNullsMax) disagrees with the sort comparator under %s on (%s, %s); sort comparator says %d", w.Cfg, w.A, w.B, w.AB)
 	case "fn":
 		return fmt.Sprintf("compare() disagrees with the sort comparator under %s on (%s, %s); comparator says %d", w.Cfg, w.A, w.B, w.AB)
 	}
@@ -478,32 +566,24 @@ func sortLevelF1(c *core.Ctx, u *universe, va, vb, vc *uval) {
 
 // ------------------------------------------------------------------- sort
 
-func sortPhase(c *core.Ctx, u *universe, rel *orderRel) error {
+func sortPhase(c *core.Ctx, u *universe, rel *orderRel, main, mutOut tlcOut) error {
 	e := newSortEnv(c, u, rel)
 	K := 3
-	cfg := "SortSpill.quick.cfg"
-	nSampled, maxN, maxB := 150, 12, 6
-	if !c.Quick() {
-		cfg = "SortSpill.thorough.cfg"
-		nSampled, maxN, maxB = 1500, 16, 8
-	}
-	inputs := sampledInputs(rand.New(rand.NewSource(c.Seed+66)), nSampled, maxN, maxB, K)
-	ij, _ := json.Marshal(inputs)
-	res := c.MustHold(core.TLCRun{Module: "SortSpill", Cfg: cfg, Files: map[string][]byte{"ss_inputs.json": ij}, Workers: 16, Coverage: true, Timeout: 15 * time.Minute})
+	res := mustHold(c, "SortSpill", main)
 	if res == nil {
 		return nil
 	}
-	for _, a := range res.ZeroCov {
+	for _, a := range zeroCov(res) {
 		switch a {
 		case "Consume", "Spill", "FinishMem", "StartMerge", "MergeStep", "MergeDone":
 			c.Inconclusive("SortSpill.tla: action %s was never taken (vacuous run)", a)
 		}
 	}
 	// sensitivity: without the ordinal tie-break the invariants must fail
-	mut, err := c.RunTLC(core.TLCRun{Module: "SortSpill", Cfg: "SortSpill.mut.cfg", Files: map[string][]byte{"ss_inputs.json": []byte("[]")}, Workers: 4, Timeout: 5 * time.Minute})
-	if err != nil {
-		return err
+	if mutOut.err != nil {
+		return mutOut.err
 	}
+	mut := mutOut.res
 	if mut.Status != "invariant" {
 		c.Inconclusive("SortSpill.mut.cfg (merge without ordinal tie-break) should violate Final/OutputSorted but TLC says %s: the invariants are vacuous", mut.Status)
 	}
@@ -554,27 +634,23 @@ func sortPhase(c *core.Ctx, u *universe, rel *orderRel) error {
 
 // ------------------------------------------------------------------ merge
 
-func mergePhase(c *core.Ctx, u *universe) error {
+func mergePhase(c *core.Ctx, u *universe, main, mutOut tlcOut) error {
 	e := &mergeEnv{c: c, u: u}
 	K := 3
-	cfg := "MergeOp.quick.cfg"
-	if !c.Quick() {
-		cfg = "MergeOp.thorough.cfg"
-	}
-	res := c.MustHold(core.TLCRun{Module: "MergeOp", Cfg: cfg, Workers: 16, Coverage: true, Timeout: 15 * time.Minute})
+	res := mustHold(c, "MergeOp", main)
 	if res == nil {
 		return nil
 	}
-	for _, a := range res.ZeroCov {
+	for _, a := range zeroCov(res) {
 		switch a {
 		case "AddParent", "Start", "PullEOS", "Pull", "ReadStep", "ReadEnd":
 			c.Inconclusive("MergeOp.tla: action %s was never taken (vacuous run)", a)
 		}
 	}
-	mut, err := c.RunTLC(core.TLCRun{Module: "MergeOp", Cfg: "MergeOp.mut.cfg", Workers: 4, Timeout: 5 * time.Minute})
-	if err != nil {
-		return err
+	if mutOut.err != nil {
+		return mutOut.err
 	}
+	mut := mutOut.res
 	if mut.Status != "invariant" {
 		c.Inconclusive("MergeOp.mut.cfg (probe the first instead of the last buffered value) should violate OutSorted/NoOvertake but TLC says %s: the invariants are vacuous", mut.Status)
 	}
